@@ -28,6 +28,8 @@ def run(ctx):
     plans = [("depth2-kinematic-ops", c05.cfg(2, "KinOps", "gen"), None),
              ("depth3-kinematic-ops", c05.cfg(3, "KinOps", "gen"), None),
              ("simulate-depth8", c05.cfg(8, "NoIK", "gen"), (ctx.pick(60, 3000), 8))]
+    from vf import armrun
+    armrun.known_probes(ctx)
     allg = c05.generate(ctx, plans)
     mk = c05.makers(ctx)
     c05._C06 = True
